@@ -149,4 +149,289 @@ theorem mapping_is_step_maps (S : Schema) (doc : Node) (sts : List Step) :
     ((Tr.init doc).run S sts).maps = ((Tr.init doc).run S sts).steps.map Step.getMap := by
   exact Tr.run_maps S sts (Tr.init doc) (by simp [Tr.init])
 
+/-! ### "a position outside the changed ranges points at the same content": every step kind -/
+
+/-- … the same for replace-around steps: a position before the step, inside the kept gap or after the
+    step, mapped with assoc 1, has the same token after it (hypotheses of `replaceAround_map_faithful`) -/
+theorem mapped_position_same_content_around (S : Schema) (doc doc' : Node) (f t gf gt : Nat) (sl : Slice)
+    (ins : Nat) (st : Bool) (hwf : sl.wf = true) (hins : (ins : Int) ≤ sl.size)
+    (hg : f ≤ gf ∧ gf ≤ gt ∧ gt ≤ t)
+    (hne : gf < gt ∨ gt < t ∨ (ins : Int) = sl.size)
+    (h : S.apply (.replaceAround f t gf gt sl ins st) doc = .ok doc')
+    (p : Nat) (hp : p < f ∨ (gf ≤ p ∧ p < gt) ∨ t ≤ p) (hps : p < fsize doc.kids) :
+    ((ftoks doc'.kids).drop ((Step.replaceAround f t gf gt sl ins st).getMap.map p 1).toNat).head? =
+      ((ftoks doc.kids).drop p).head? := by
+  have key := (replaceAround_map_faithful S doc doc' f t gf gt sl ins st hwf hins hg hne h).2 p hps (by
+    intro r hr
+    simp only [Step.getMap, List.mem_cons, List.not_mem_nil, or_false] at hr
+    rcases hr with rfl | rfl <;> simp only <;> omega)
+  rw [List.head?_drop, List.head?_drop]
+  exact key
+
+/-- the side conditions under which a replace-around step's map is faithful
+    (`replaceAround_map_faithful`); nothing for the other seven kinds -/
+def AroundOK : Step → Prop
+  | .replaceAround f t gf gt sl ins _ =>
+    sl.wf = true ∧ (ins : Int) ≤ sl.size ∧ (f ≤ gf ∧ gf ≤ gt ∧ gt ≤ t) ∧
+      (gf < gt ∨ gt < t ∨ (ins : Int) = sl.size)
+  | _ => True
+
+/-- the step replaces content (its map may be non-empty) -/
+def IsReplaceFamily : Step → Prop
+  | .replace .. => True
+  | .replaceAround .. => True
+  | _ => False
+
+/-- the value of a replace step's map outside its range -/
+theorem replace_map_value (f t : Nat) (sl : Slice) (b : Bool) (hft : f ≤ t) (p : Nat)
+    (hout : outside (Step.replace f t sl b).getMap p) :
+    (Step.replace f t sl b).getMap.map p 1 =
+      if p < f then (p : Int) else (p : Int) + (sl.size - ((t : Int) - f)) := by
+  have hout' : p < f ∨ t ≤ p := by
+    have := hout ((f : Int), (t : Int) - f, sl.size) (by simp [Step.getMap])
+    simp only at this
+    omega
+  dsimp only [Step.getMap]
+  split
+  · rename_i h1; exact map_one_lt _ _ _ _ _ (by omega)
+  · rename_i h1; exact map_one_ge _ _ _ _ (by omega) (by omega)
+
+/-- the value of a replace-around step's map outside its two ranges -/
+theorem replaceAround_map_value (f t gf gt : Nat) (sl : Slice) (ins : Nat) (b : Bool)
+    (hg : f ≤ gf ∧ gf ≤ gt ∧ gt ≤ t) (hne : gf < gt ∨ gt < t ∨ (ins : Int) = sl.size) (p : Nat)
+    (hout : outside (Step.replaceAround f t gf gt sl ins b).getMap p) :
+    (Step.replaceAround f t gf gt sl ins b).getMap.map p 1 =
+      if p < f then (p : Int)
+      else if p < gt then (p : Int) + ((ins : Int) - ((gf : Int) - f))
+      else (p : Int) + ((ins : Int) - ((gf : Int) - f)) + (sl.size - ins - ((t : Int) - gt)) := by
+  obtain ⟨hg1, hg2, hg3⟩ := hg
+  have hout' : p < f ∨ (gf ≤ p ∧ p < gt) ∨ t ≤ p := by
+    have a := hout ((f : Int), (gf : Int) - f, (ins : Int)) (by simp [Step.getMap])
+    have b := hout ((gt : Int), (t : Int) - gt, sl.size - ins) (by simp [Step.getMap])
+    simp only at a b
+    omega
+  dsimp only [Step.getMap]
+  rcases hout' with h1 | ⟨h1, h2⟩ | h1
+  · rw [if_pos h1]; exact map_two_lt _ _ _ _ _ _ _ _ (by omega)
+  · rw [if_neg (by omega), if_pos h2]
+    exact map_two_mid _ _ _ _ _ _ _ (by omega) (by omega) (by omega)
+  · rw [if_neg (by omega), if_neg (by omega)]
+    by_cases hd : gf < p
+    · exact map_two_ge _ _ _ _ _ _ _ (by omega) (by omega) (by omega) (by omega)
+    · have hs : (ins : Int) = sl.size := by omega
+      rw [map_two_end _ _ _ _ _ _ _ (by omega) (by omega)]
+      omega
+
+theorem head?_drop_shape (l : List Tok) (n : Nat) :
+    ((l.drop n).head?).map Tok.shape = ((l.map Tok.shape).drop n).head? := by
+  rw [List.head?_drop, List.head?_drop, List.getElem?_map]
+
+/-- mark, node-mark, attr and doc-attr steps: every position maps to itself and the token after it
+    keeps its structure and text -/
+theorem mapped_position_markup (S : Schema) (doc doc' : Node) (st : Step)
+    (hk : ∀ f t sl b, st ≠ .replace f t sl b) (hk' : ∀ f t gf gt sl i b, st ≠ .replaceAround f t gf gt sl i b)
+    (h : S.apply st doc = .ok doc') (p : Nat) (hp : p ≤ fsize doc.kids) :
+    0 ≤ st.getMap.map p 1 ∧ (st.getMap.map p 1).toNat ≤ fsize doc'.kids ∧
+    (((ftoks doc'.kids).drop (st.getMap.map p 1).toNat).head?).map Tok.shape =
+      (((ftoks doc.kids).drop p).head?).map Tok.shape := by
+  obtain ⟨_, hsh, hmap⟩ := markup_steps_empty_map S doc doc' st hk hk' h
+  have hlen : fsize doc'.kids = fsize doc.kids := by
+    have := congrArg List.length hsh
+    simpa [ftoks_length] using this
+  rw [hmap p 1]
+  refine ⟨Int.natCast_nonneg _, by rw [Int.toNat_natCast, hlen]; exact hp, ?_⟩
+  rw [Int.toNat_natCast, head?_drop_shape, head?_drop_shape, hsh]
+
+/-- **every step kind, every position**: a position `p ≤ size` outside the changed ranges of the
+    step's map is mapped (assoc 1) to a position of the new document, and the token after it has
+    the same structure and text (`Tok.shape`: marks and attributes erased — mark, node-mark and attr
+    steps change exactly those); for replace and replace-around steps it is the same token.  At
+    `p = size` both sides are "no token".  This is the last sentence of the property for all eight
+    step kinds. -/
+theorem mapped_position_every_step (S : Schema) (doc doc' : Node) (st : Step) (hok : AroundOK st)
+    (h : S.apply st doc = .ok doc') (p : Nat) (hp : p ≤ fsize doc.kids) (hout : outside st.getMap p) :
+    0 ≤ st.getMap.map p 1 ∧ (st.getMap.map p 1).toNat ≤ fsize doc'.kids ∧
+    (((ftoks doc'.kids).drop (st.getMap.map p 1).toNat).head?).map Tok.shape =
+      (((ftoks doc.kids).drop p).head?).map Tok.shape ∧
+    (IsReplaceFamily st →
+      ((ftoks doc'.kids).drop (st.getMap.map p 1).toNat).head? = ((ftoks doc.kids).drop p).head?) := by
+  -- the replace family: token equality from the faithfulness theorems, bounds from the map's value
+  have fam : ∀ (δ : Int), (fsize doc'.kids : Int) - fsize doc.kids = δ →
+      (∀ i : Nat, i < fsize doc.kids → outside st.getMap i →
+        (ftoks doc'.kids)[(st.getMap.map i 1).toNat]? = (ftoks doc.kids)[i]?) →
+      0 ≤ st.getMap.map p 1 → (p = fsize doc.kids → st.getMap.map p 1 = (p : Int) + δ) →
+      0 ≤ st.getMap.map p 1 ∧ (st.getMap.map p 1).toNat ≤ fsize doc'.kids ∧
+      (((ftoks doc'.kids).drop (st.getMap.map p 1).toNat).head?).map Tok.shape =
+        (((ftoks doc.kids).drop p).head?).map Tok.shape ∧
+      (IsReplaceFamily st →
+        ((ftoks doc'.kids).drop (st.getMap.map p 1).toNat).head? = ((ftoks doc.kids).drop p).head?) := by
+    intro δ hδ hfaith h0 hend
+    rcases Nat.lt_or_ge p (fsize doc.kids) with hlt | hge
+    · have key := hfaith p hlt hout
+      have hsome : (ftoks doc.kids)[p]? = some ((ftoks doc.kids)[p]'(by rw [ftoks_length]; exact hlt)) :=
+        List.getElem?_eq_getElem _
+      have hq : (st.getMap.map p 1).toNat < (ftoks doc'.kids).length := by
+        rcases Nat.lt_or_ge (st.getMap.map p 1).toNat (ftoks doc'.kids).length with h' | h'
+        · exact h'
+        · rw [List.getElem?_eq_none h', hsome] at key; simp at key
+      rw [ftoks_length] at hq
+      have e : ((ftoks doc'.kids).drop (st.getMap.map p 1).toNat).head? = ((ftoks doc.kids).drop p).head? := by
+        rw [List.head?_drop, List.head?_drop]; exact key
+      exact ⟨h0, by omega, by rw [e], fun _ => e⟩
+    · have hpe : p = fsize doc.kids := by omega
+      have hq := hend hpe
+      have e : ((ftoks doc'.kids).drop (st.getMap.map p 1).toNat).head? = ((ftoks doc.kids).drop p).head? := by
+        rw [List.drop_eq_nil_of_le (by rw [ftoks_length]; omega),
+          List.drop_eq_nil_of_le (by rw [ftoks_length]; omega)]
+      exact ⟨h0, by omega, by rw [e], fun _ => e⟩
+  cases st with
+  | replace f t sl b =>
+    obtain ⟨_, hft, htl, hwf⟩ := apply_replace_facts S doc doc' f t sl b h
+    have hs0 : 0 ≤ sl.size := by have := Slice.toks_length_int sl hwf; omega
+    obtain ⟨hd, hfaith⟩ := replace_map_faithful S doc doc' f t sl b h
+    have hv := replace_map_value f t sl b hft p hout
+    have hdl : mapDelta (Step.replace f t sl b).getMap = sl.size - ((t : Int) - f) := by
+      simp [mapDelta, Step.getMap]
+    have hsz : 0 ≤ (fsize doc'.kids : Int) := Int.natCast_nonneg _
+    have hout' : p < f ∨ t ≤ p := by
+      have := hout ((f : Int), (t : Int) - f, sl.size) (by simp [Step.getMap])
+      simp only at this
+      omega
+    refine fam _ hd hfaith ?_ ?_
+    · rw [hv]
+      by_cases h1 : p < f
+      · rw [if_pos h1]; omega
+      · rw [if_neg h1]; omega
+    · intro hpe; rw [hv, if_neg (by omega), hdl]
+  | replaceAround f t gf gt sl ins b =>
+    obtain ⟨hwf, hins, hg, hne⟩ := hok
+    obtain ⟨_, htl, _⟩ := apply_replaceAround_toks S doc doc' f t gf gt sl ins b hwf hins hg h
+    obtain ⟨hd, hfaith⟩ := replaceAround_map_faithful S doc doc' f t gf gt sl ins b hwf hins hg hne h
+    have hv := replaceAround_map_value f t gf gt sl ins b hg hne p hout
+    have hdl : mapDelta (Step.replaceAround f t gf gt sl ins b).getMap =
+        ((ins : Int) - ((gf : Int) - f)) + (sl.size - ins - ((t : Int) - gt)) := by
+      simp [mapDelta, Step.getMap]
+    have hsz : 0 ≤ (fsize doc'.kids : Int) := Int.natCast_nonneg _
+    have hs0 : 0 ≤ sl.size := by have := Slice.toks_length_int sl hwf; omega
+    have hout' : p < f ∨ (gf ≤ p ∧ p < gt) ∨ t ≤ p := by
+      have a := hout ((f : Int), (gf : Int) - f, (ins : Int)) (by simp [Step.getMap])
+      have b := hout ((gt : Int), (t : Int) - gt, sl.size - ins) (by simp [Step.getMap])
+      simp only at a b
+      omega
+    refine fam _ hd hfaith ?_ ?_
+    · rw [hv]
+      by_cases h1 : p < f
+      · rw [if_pos h1]; omega
+      · rw [if_neg h1]
+        by_cases h2 : p < gt
+        · rw [if_pos h2]; omega
+        · rw [if_neg h2]; omega
+    · intro hpe; rw [hv, if_neg (by omega), if_neg (by omega), hdl]; omega
+  | addMark f t m =>
+    have m := mapped_position_markup S doc doc' _ (by intros; simp) (by intros; simp) h p hp
+    exact ⟨m.1, m.2.1, m.2.2, fun hc => hc.elim⟩
+  | removeMark f t m =>
+    have m := mapped_position_markup S doc doc' _ (by intros; simp) (by intros; simp) h p hp
+    exact ⟨m.1, m.2.1, m.2.2, fun hc => hc.elim⟩
+  | addNodeMark pos m =>
+    have m := mapped_position_markup S doc doc' _ (by intros; simp) (by intros; simp) h p hp
+    exact ⟨m.1, m.2.1, m.2.2, fun hc => hc.elim⟩
+  | removeNodeMark pos m =>
+    have m := mapped_position_markup S doc doc' _ (by intros; simp) (by intros; simp) h p hp
+    exact ⟨m.1, m.2.1, m.2.2, fun hc => hc.elim⟩
+  | attr pos n v =>
+    have m := mapped_position_markup S doc doc' _ (by intros; simp) (by intros; simp) h p hp
+    exact ⟨m.1, m.2.1, m.2.2, fun hc => hc.elim⟩
+  | docAttr n v =>
+    have m := mapped_position_markup S doc doc' _ (by intros; simp) (by intros; simp) h p hp
+    exact ⟨m.1, m.2.1, m.2.2, fun hc => hc.elim⟩
+
+/-! ### … and along a whole history -/
+
+/-- the position stays outside the changed ranges of every map of the history, followed along it:
+    outside the first map's ranges, its image outside the second map's ranges, and so on -/
+def OutsideAll : List StepMap → Int → Prop
+  | [], _ => True
+  | m :: ms, p => outside m p ∧ OutsideAll ms (m.map p 1)
+
+/-- left-to-right composition of the maps (assoc 1) -/
+def mapAll (ms : List StepMap) (p : Int) : Int := ms.foldl (fun q m => m.map q 1) p
+
+/-- `Transform.mapping` (a `Mapping` over the recorded maps, no mirrors) maps by `mapAll` -/
+theorem mapping_map_eq_mapAll (ms : List StepMap) (p : Int) :
+    (Mapping.ofMaps ms).map p 1 = some (mapAll ms p) := by
+  simp [Mapping.map, Mapping.ofMaps, Mapping.mapPlain, mapAll]
+
+/-- what is claimed of one stretch of history: the token after the mapped position -/
+def SameAfter (d d' : Node) (steps : List Step) (p : Nat) (q : Int) : Prop :=
+  0 ≤ q ∧ q.toNat ≤ fsize d'.kids ∧
+  (((ftoks d'.kids).drop q.toNat).head?).map Tok.shape = (((ftoks d.kids).drop p).head?).map Tok.shape ∧
+  ((∀ st ∈ steps, IsReplaceFamily st) →
+    ((ftoks d'.kids).drop q.toNat).head? = ((ftoks d.kids).drop p).head?)
+
+theorem run_same_after (S : Schema) : ∀ (sts : List Step) (tr : Tr), (∀ st ∈ sts, AroundOK st) →
+    ∃ new : List Step, (tr.run S sts).steps = tr.steps ++ new ∧
+      (tr.run S sts).maps = tr.maps ++ new.map Step.getMap ∧
+      ∀ p : Nat, p ≤ fsize tr.doc.kids → OutsideAll (new.map Step.getMap) p →
+        SameAfter tr.doc (tr.run S sts).doc new p (mapAll (new.map Step.getMap) p)
+  | [], tr, _ => by
+    refine ⟨[], by simp [Tr.run], by simp [Tr.run], fun p hp _ => ?_⟩
+    simp only [Tr.run, List.foldl_nil, List.map_nil, mapAll, SameAfter, Int.toNat_natCast]
+    exact ⟨Int.natCast_nonneg _, hp, trivial, fun _ => trivial⟩
+  | st :: sts, tr, hok => by
+    have hok' : ∀ s ∈ sts, AroundOK s := fun s hs => hok s (List.mem_cons_of_mem _ hs)
+    have hrun : tr.run S (st :: sts) = (tr.maybeStep S st).run S sts := by simp [Tr.run]
+    rw [hrun]
+    cases happ : S.apply st tr.doc with
+    | error e =>
+      have : tr.maybeStep S st = tr := by simp [Tr.maybeStep, happ]
+      rw [this]
+      exact run_same_after S sts tr hok'
+    | ok d1 =>
+      have h1 : tr.maybeStep S st = tr.addStep st d1 := by simp [Tr.maybeStep, happ]
+      rw [h1]
+      obtain ⟨new, e1, e2, e3⟩ := run_same_after S sts (tr.addStep st d1) hok'
+      refine ⟨st :: new, by simpa [Tr.addStep] using e1, by simpa [Tr.addStep] using e2, fun p hp hout => ?_⟩
+      simp only [List.map_cons, OutsideAll] at hout
+      obtain ⟨ho1, ho2⟩ := hout
+      obtain ⟨s1, s2, s3, s4⟩ := mapped_position_every_step S tr.doc d1 st (hok st List.mem_cons_self)
+        happ p hp ho1
+      have hq : ((st.getMap.map p 1).toNat : Int) = st.getMap.map p 1 := Int.toNat_of_nonneg s1
+      have ih := e3 (st.getMap.map p 1).toNat (by simpa [Tr.addStep] using s2) (by rw [hq]; exact ho2)
+      rw [hq] at ih
+      obtain ⟨i1, i2, i3, i4⟩ := ih
+      simp only [Tr.addStep] at i3 i4
+      have hm : mapAll (List.map Step.getMap (st :: new)) p =
+          mapAll (List.map Step.getMap new) (st.getMap.map p 1) := by simp [mapAll]
+      rw [hm]
+      refine ⟨i1, i2, i3.trans s3, fun hall => ?_⟩
+      exact (i4 (fun s hs => hall s (List.mem_cons_of_mem _ hs))).trans (s4 (hall st List.mem_cons_self))
+
+/-- a position after a replaced range `[2, 3) → 3 tokens`, then a markup step: outside both -/
+example : OutsideAll [⟨[(2, 1, 3)], false⟩, ⟨[], false⟩] 5 := by
+  simp [OutsideAll, outside]
+
+/-- **Transform level**: over any list of attempted steps, the transform's mapping
+    (`mapping_is_step_maps`: the recorded steps' maps; C08 `mapping_composition`: composed left to
+    right) sends a position that stays outside every recorded step's changed ranges to a position
+    of the final document with a token of the same structure and text after it — the same token
+    when only replace / replace-around steps were recorded -/
+theorem transform_mapped_position_same_content (S : Schema) (doc : Node) (sts : List Step)
+    (hok : ∀ st ∈ sts, AroundOK st) (p : Nat) (hp : p ≤ fsize doc.kids)
+    (hout : OutsideAll ((Tr.init doc).run S sts).maps p) :
+    ∃ q : Nat, (Mapping.ofMaps ((Tr.init doc).run S sts).maps).map p 1 = some (q : Int) ∧
+      q ≤ fsize ((Tr.init doc).run S sts).doc.kids ∧
+      (((ftoks ((Tr.init doc).run S sts).doc.kids).drop q).head?).map Tok.shape =
+        (((ftoks doc.kids).drop p).head?).map Tok.shape ∧
+      ((∀ st ∈ ((Tr.init doc).run S sts).steps, IsReplaceFamily st) →
+        ((ftoks ((Tr.init doc).run S sts).doc.kids).drop q).head? = ((ftoks doc.kids).drop p).head?) := by
+  obtain ⟨new, e1, e2, e3⟩ := run_same_after S sts (Tr.init doc) hok
+  replace e1 : ((Tr.init doc).run S sts).steps = new := by simpa [Tr.init] using e1
+  replace e2 : ((Tr.init doc).run S sts).maps = new.map Step.getMap := by simpa [Tr.init] using e2
+  rw [e2] at hout ⊢
+  rw [e1]
+  obtain ⟨s1, s2, s3, s4⟩ := e3 p hp hout
+  refine ⟨(mapAll (new.map Step.getMap) p).toNat, ?_, s2, s3, s4⟩
+  rw [mapping_map_eq_mapAll, Int.toNat_of_nonneg s1]
+
 end PM.C03
